@@ -275,6 +275,44 @@ pub fn run(ctx: &Ctx) -> Report {
     }
     st.count("watchdog_slow_jobs_rerun", slow.lock().unwrap().len() as u64);
 
+    // huge inputs (far beyond any capacity: the answer is Err(EncodedData)) on a thread with the DEFAULT stack size,
+    // each in its own child process: work that grows with the input before the capacity gate (recursion per byte, a
+    // buffer per byte) ends in stack exhaustion or an allocation failure, which no catch_unwind can report
+    {
+        let exe = std::env::current_exe().ok();
+        let lens: Vec<usize> = ctx.tier.pick(vec![20_000, 120_000, 1_000_000, 4_000_000], vec![9_000, 20_000, 60_000, 120_000, 500_000, 1_000_000, 4_000_000, 16_000_000]);
+        for (i, &len) in lens.iter().enumerate() {
+            for class in 0..3usize {
+                for gen in [crate::job::GEN_RANDOM, crate::job::GEN_LOW] {
+                    if gen == crate::job::GEN_LOW && i % 2 == 1 {
+                        continue;
+                    }
+                    st.eval();
+                    let spec = format!("huge:{class}:{len}:{gen}");
+                    let out = exe.as_ref().and_then(|e| std::process::Command::new(e).arg("c10-child").arg(&spec).output().ok());
+                    match out {
+                        None => st.inconclusive("huge-input family: cannot spawn child".into()),
+                        Some(o) => {
+                            let text = String::from_utf8_lossy(&o.stdout).to_string();
+                            let outcome = text.lines().find_map(|l| l.strip_prefix("OUTCOME ")).unwrap_or("").to_string();
+                            let j = serde_json::json!({"fam": "huge-input", "class": class, "len": len, "gen": gen});
+                            if !o.status.success() {
+                                st.violation(ID, "abnormal-termination", format!("building {len} bytes (class {}, automatic mode) on a default-stack thread ended the process with {} ({})", oracle::tables::MODE_NAMES[class], o.status, String::from_utf8_lossy(&o.stderr).lines().last().unwrap_or("")), j);
+                            } else if outcome == "panic" || outcome == "thread-panicked" {
+                                st.violation(ID, "panic", format!("building {len} bytes (class {}, automatic mode) panicked", oracle::tables::MODE_NAMES[class]), j);
+                            } else if outcome.is_empty() {
+                                st.inconclusive(format!("huge-input family: child protocol broken for {spec}: {text:?}"));
+                            } else {
+                                st.count("huge_inputs_answered_on_a_default_stack", 1);
+                                st.max("max_input_length_built", len as u64);
+                                st.distinct(mix(0x4075e, (len * 8 + class * 2 + gen) as u64));
+                            }
+                        }
+                    }
+                }
+            }
+        }
+    }
     let mut extra = vec![];
     if ctx.tier == Tier::Thorough {
         let r = sanit::miri_stage(ctx, "c10", 16);
@@ -285,7 +323,7 @@ pub fn run(ctx: &Ctx) -> Report {
     }
     let mut rep = Report::new(
         st,
-        "jobs = all 480 capacity thresholds +-2 under rotating version options {auto, 1, vmin-1, vmin, vmin+1, 40} and forced/automatic mode, level, mask; every (version, level, mode) cell at capacity with automatic mask; special lengths {0,1,2,7089..7091,8000,65535,65536,...} x 11 payload generators (all-zero, all-0xFF, pad look-alikes, mode-indicator look-alikes, real-world tokens and magic prefixes, zero runs, periodic, alternating extremes, ...); crafted byte payloads at every (version, level): data area equal to each of the 8 mask patterns and their complements, uniform, finder look-alike rows/columns, stripes, 2x2 blocks (24 targets: every counter of the scoring code at its extreme) and 8 per-block codeword shapes (all padding pattern, zero blocks, identical blocks, leading zeros); arbitrary strings of length 0..8000 with random option combinations (forced modes only when their alphabet contains the input); every 8th build follows a caught out-of-contract panic (forced mode on a foreign character) on the same thread; each build runs under catch_unwind in a profile with overflow-checks and debug-assertions enabled; outcome must be Ok / Err(EncodedData) / Err(SpecifiedVersion); watchdog re-runs any job slower than 20 s in a child process (120 s limit); thorough adds two Miri stages (240 small builds+renders; 16 builds at versions 5..40, one interpreter process each); distinct key = (options, len, payload hash); every case non-trivial",
+        "jobs = all 480 capacity thresholds +-2 under rotating version options {auto, 1, vmin-1, vmin, vmin+1, 40} and forced/automatic mode, level, mask; every (version, level, mode) cell at capacity with automatic mask; special lengths {0,1,2,7089..7091,8000,65535,65536,...} x 11 payload generators (all-zero, all-0xFF, pad look-alikes, mode-indicator look-alikes, real-world tokens and magic prefixes, zero runs, periodic, alternating extremes, ...); crafted byte payloads at every (version, level): data area equal to each of the 8 mask patterns and their complements, uniform, finder look-alike rows/columns, stripes, 2x2 blocks (24 targets: every counter of the scoring code at its extreme) and 8 per-block codeword shapes (all padding pattern, zero blocks, identical blocks, leading zeros); arbitrary strings of length 0..8000 with random option combinations (forced modes only when their alphabet contains the input); every 8th build follows a caught out-of-contract panic (forced mode on a foreign character) on the same thread; each build runs under catch_unwind in a profile with overflow-checks and debug-assertions enabled; outcome must be Ok / Err(EncodedData) / Err(SpecifiedVersion); inputs of 20,000 .. 4,000,000 bytes (thorough: up to 16,000,000) are built in child processes on a thread with the default 2 MiB stack (stack exhaustion or allocation failure = abnormal termination); watchdog re-runs any job slower than 20 s in a child process (120 s limit); thorough adds two Miri stages (240 small builds+renders; 16 builds at versions 5..40, one interpreter process each); distinct key = (options, len, payload hash); every case non-trivial",
     );
     rep.expected_sets = vec![("cells_at_capacity", 480), ("option_shapes", 16), ("generators", 11), ("crafted_targets", 24), ("crafted_shapes", 11), ("version_level_built", 160)];
     rep.required_sets = vec![("cells_at_capacity", 480), ("option_shapes", 16), ("generators", 11), ("crafted_targets", 24), ("crafted_shapes", 11)];
@@ -326,7 +364,35 @@ fn child_rerun(job: &Job, limit: Duration) -> bool {
     }
 }
 
+/// child side of the huge-input family: `vcheck c10-child huge:<class>:<len>:<gen>` builds ONE input of that length in
+/// automatic mode on a thread with the platform's DEFAULT stack size (what `std::thread::spawn` gives a user: 2 MiB) and
+/// prints the outcome. Stack exhaustion aborts the process: the parent sees the signal.
+fn huge_child(spec: &str) -> i32 {
+    let mut it = spec.split(':').skip(1);
+    let class: usize = it.next().and_then(|x| x.parse().ok()).unwrap_or(2);
+    let len: usize = it.next().and_then(|x| x.parse().ok()).unwrap_or(0);
+    let gen: usize = it.next().and_then(|x| x.parse().ok()).unwrap_or(0);
+    let payload = crate::job::gen_payload(class, len, gen, 0x4075e);
+    let h = std::thread::spawn(move || {
+        let cfg = adapter::Config { input: payload, mode: None, level: None, version: None, mask: None };
+        adapter::build(&cfg).kind().to_string()
+    });
+    match h.join() {
+        Ok(kind) => {
+            println!("OUTCOME {kind}");
+            0
+        }
+        Err(_) => {
+            println!("OUTCOME thread-panicked");
+            0
+        }
+    }
+}
+
 pub fn child_main(arg: &str) -> i32 {
+    if arg.starts_with("huge:") {
+        return huge_child(arg);
+    }
     let v: serde_json::Value = match serde_json::from_str(arg) {
         Ok(v) => v,
         Err(_) => return 2,
